@@ -504,7 +504,7 @@ pub fn main(args: &Args) -> ! {
     let mut run = Run::new(args, "model_checking");
     run.set("engine", "coop: baton scheduler over real OS threads, scheduling points at every acquire / upgrade / release of aquatic_udp::swarm's RwLocks (hook H3), mirror lock table with parking_lot's rules, stateless DFS with prefix replay");
     run.assume("sequential consistency (the baton serialises everything); weak-memory reorderings are outside this check");
-    run.assume("the mirror lock table (reader / upgradable / writer compatibility, writer bit claimed before readers drain) is the one piece of parking_lot semantics assumed rather than executed");
+    run.assume("the mirror lock table (reader / upgradable / writer compatibility, writer bit claimed before readers drain) stands in for parking_lot inside the scheduler; it is validated against the real lock by the lock litmus (every reachable state of one lock and 2-3 threads, thorough 4; every transition executed on real threads), with 25 ms as the observation that a call is blocked");
     run.assume("footprint reduction: a shard lock only one thread can touch is not a choice point (asserted at run time; commuting operations)");
 
     if let Some(p) = &args.replay {
@@ -641,6 +641,29 @@ pub fn main(args: &Args) -> ! {
             machinery_failure(&format!("footprint reduction lost outcomes for {:?}: {} reduced vs {} with every lock operation (bound 2)", p, a, b));
         }
         cross_ok += 1;
+    }
+
+    // ---- the scheduler's picture of the lock, validated against the real lock on free-running threads
+    {
+        let mut total = (0u64, 0u64, 0u64, 0u64, 0u64);
+        let mut summary = Vec::new();
+        let thread_counts: &[usize] = if args.tier.thorough() { &[2, 3, 4] } else { &[2, 3] };
+        for &n in thread_counts {
+            let rep = crate::lock_litmus::explore(n, 64);
+            if let Some((seq, what)) = rep.discrepancies.first() {
+                machinery_failure(&format!("mirror lock table disagrees with the real RwLock ({} threads) on sequence {:?}: {} ({} discrepancies in all)", n, seq, what, rep.discrepancies.len()));
+            }
+            if rep.blocked_observations == 0 {
+                machinery_failure("lock litmus vacuous: no call was ever observed blocked");
+            }
+            total = (total.0 + rep.states, total.1 + rep.transitions, total.2 + rep.blocked_observations, total.3 + rep.ambiguous, total.4 + rep.reruns);
+            summary.push(format!("{} threads: {} states, {} transitions run on the real lock, depth {}, {} blocked-call observations, {} unobservable (skipped)", n, rep.states, rep.transitions, rep.max_depth, rep.blocked_observations, rep.ambiguous));
+        }
+        run.set("lock_model_conformance", summary.join("; "));
+        run.set("lock_model_states", total.0);
+        run.set("lock_model_transitions_validated_against_real_lock", total.1);
+        run.set("lock_model_blocked_call_observations", total.2);
+        run.set("lock_model_sequences_rerun_with_long_waits", total.4);
     }
 
     if args.tier.thorough() {
